@@ -8,25 +8,31 @@ the scalar `0` of the Python code (after construction and after every read-out) 
 once something has been integrated.
 
 The model is that of the *repaired* code (pending fixes D15, D29, D30, D31):
-* `integrate p dt w` bins the power onto the detector grid (`statistic='sum'`, factor `s`) and
+* `integrate p dt w` bins the power onto the detector grid (`statistic='sum'`, per-axis factors `ss`) and
   adds `p·dt·w` pixel by pixel; a power of the wrong size is refused (`reshape` raises) and
   leaves the state alone;
 * `readOut` returns the accumulator — the zero image when nothing was integrated — and resets it.
 
-`…Old` definitions keep the behaviour of the unrepaired tree: `readOutOld` fails on an empty
-accumulator (D15) and `integrateOld` does not bin (D29).
+The behaviour of the unrepaired tree (`readOutOld`, D15; `integrateOld`, D29; `relabelOld`, D170) and a detector that
+aliases (`rStepBad`) are kept in `Model/DetectorOld.lean`, namespace `HcipyVerif.Detector.Old`: documentation, no
+driver op runs them and no property theorem is about them.
 -/
 namespace HcipyVerif.Detector
 open HcipyVerif.Binning
 
-/-- Static description of a detector: coarse shape (slowest axis first) and subsampling. -/
+/-- Static description of a detector: coarse shape (slowest axis first) and one subsampling factor per
+axis, in the same order (`Detector(grid, subsamping=<array>)`, D181; the reverse of `grid.dims`). -/
 structure Geom where
   dims : List Nat
-  s : Nat := 1
-deriving Repr
+  ss : List Nat
+  hl : ss.length = dims.length := by decide
+
+/-- a detector with one common subsampling factor `s` (`subsamping=<scalar>`): the factor on every axis -/
+def Geom.uniform (dims : List Nat) (s : Nat := 1) : Geom :=
+  { dims := dims, ss := dims.map fun _ => s, hl := by simp }
 
 def Geom.npix (g : Geom) : Nat := size g.dims
-def Geom.ninput (g : Geom) : Nat := fineSize g.s g.dims
+def Geom.ninput (g : Geom) : Nat := fineSizes g.ss g.dims
 
 section
 variable {K : Type} [Add K] [Zero K] [Mul K]
@@ -60,7 +66,7 @@ def accAdd (acc : Option (List K)) (img : List K) : List K :=
 
 def integrate (g : Geom) (st : St K) (p : List K) (dt w : K) : St K × Obs K :=
   if p.length = g.ninput then
-    ({ acc := some (accAdd st.acc (charge (binND g.s g.dims p) dt w)) }, .done)
+    ({ acc := some (accAdd st.acc (charge (binNDs g.ss g.dims p) dt w)) }, .done)
   else (st, .refused)
 
 def readOut (g : Geom) (st : St K) : St K × Obs K :=
@@ -84,30 +90,6 @@ def reads (g : Geom) : St K → List (Op K) → List (Obs K)
   | st, .readOut :: ops => (step g st .readOut).2 :: reads g (step g st .readOut).1 ops
   | st, op :: ops => reads g (step g st op).1 ops
 
-/-! ### the unrepaired tree -/
-
-/-- D29: `NoiselessDetector.integrate` accumulated the supersampled power as is -/
-def integrateOld (g : Geom) (st : St K) (p : List K) (dt w : K) : St K × Obs K :=
-  if p.length = g.ninput then ({ acc := some (accAdd st.acc (charge p dt w)) }, .done)
-  else (st, .refused)
-
-/-- D15: `0.copy()` raises -/
-def readOutOld (st : St K) : St K × Obs K :=
-  match st.acc with
-  | none => (st, .failed)
-  | some a => ({ acc := none }, .image a)
-
-def stepOld (g : Geom) (st : St K) : Op K → St K × Obs K
-  | .integrate p dt w => integrateOld g st p dt w
-  | .readOut => readOutOld st
-
-def runOld (g : Geom) : St K → List (Op K) → St K × List (Obs K)
-  | st, [] => (st, [])
-  | st, op :: ops =>
-    let r := stepOld g st op
-    let rs := runOld g r.1 ops
-    (rs.1, r.2 :: rs.2)
-
 /-! ### reference-level model: arrays live in a heap, the caller holds handles (aliasing)
 
 `run` above treats images as values, so "a later integration cannot change an image already returned" and
@@ -119,8 +101,7 @@ array it holds a handle on (`write`: a buffer it passed in, an image it got back
 * `readOut`: allocates a copy of the accumulator (`.copy()`, or `np.zeros` when nothing was integrated),
   hands that out and rebinds the accumulator to the scalar 0.
 `known` lists the references handed to the caller, in order (its position in the list is the handle the
-driver protocol uses).  `rStepBad` is a detector that accumulates in place into the caller's buffer and
-returns the accumulator itself — the aliasing the value model cannot express. -/
+driver protocol uses). -/
 
 structure RSt (K : Type) where
   heap : List (List K) := []
@@ -152,7 +133,7 @@ def rStep (g : Geom) (st : RSt K) : ROp K → RSt K × RObs
   | .integrate buf dt w =>
     let p := st.at buf
     if p.length = g.ninput then
-      ({ st with heap := st.heap ++ [accAdd st.accVal (charge (binND g.s g.dims p) dt w)],
+      ({ st with heap := st.heap ++ [accAdd st.accVal (charge (binNDs g.ss g.dims p) dt w)],
                  acc := some st.heap.length }, .done)
     else (st, .refused)
   | .readOut =>
@@ -179,38 +160,12 @@ def valueOps (g : Geom) : RSt K → List (ROp K) → List (Op K)
   | st, .integrate buf dt w :: ops => .integrate (st.at buf) dt w :: valueOps g (rStep g st (.integrate buf dt w)).1 ops
   | st, op :: ops => valueOps g (rStep g st op).1 ops
 
-/-- Bad: the first integration scales the caller's buffer in place and keeps it as accumulator, later ones
-add in place, the read-out returns the accumulator itself -/
-def rStepBad (g : Geom) (st : RSt K) : ROp K → RSt K × RObs
-  | .integrate buf dt w =>
-    let p := st.at buf
-    if p.length = g.ninput then
-      let c := charge (binND g.s g.dims p) dt w
-      match st.acc with
-      | none => ({ st with heap := st.heap.set buf c, acc := some buf }, .done)
-      | some a => ({ st with heap := st.heap.set a (vadd (st.at a) c) }, .done)
-    else (st, .refused)
-  | .readOut =>
-    match st.acc with
-    | none => rStep g st .readOut
-    | some a => ({ st with acc := none, known := st.known ++ [a] }, .ref a)
-  | op => rStep g st op
-
-def rRunBad (g : Geom) : RSt K → List (ROp K) → RSt K × List RObs
-  | st, [] => (st, [])
-  | st, op :: ops =>
-    let r := rStepBad g st op
-    let rs := rRunBad g r.1 ops
-    (rs.1, r.2 :: rs.2)
-
 /-! ### which grid the image is labelled with
 
 hcipy Fields carry a grid; `a + b` of two Fields keeps the grid of the left operand, `0 + b` that of `b`.
 `integrate` relabels the (binned) power with the detector grid before accumulating — `subsample_field(…,
 new_grid=self.detector_grid)` when binning, `Field(power, self.detector_grid)` otherwise (D170) — and an
-empty read-out builds its zero image on the detector grid.  `tStepOld` is the unrepaired subsampling-1 path of
-`NoiselessDetector`, which accumulated the power with whatever grid it came with (plain arrays are wrapped on
-the input grid first). -/
+empty read-out builds its zero image on the detector grid. -/
 
 inductive GTag where
   | detector | input | foreign
@@ -236,18 +191,11 @@ inductive TOp where
 /-- the grid the power carries when it reaches the accumulation, repaired code -/
 def relabel (_ : PTag) : GTag := .detector
 
-/-- … and on the unrepaired subsampling-1 path -/
-def relabelOld : PTag → GTag
-  | .onInput => .input
-  | .onForeign => .foreign
-  | .plain => .input
-
 def tStepWith (lab : PTag → GTag) (st : TSt) : TOp → TSt × Option GTag
   | .integrate p => ({ acc := some (tagAdd st.acc (lab p)) }, none)
   | .readOut => ({ acc := none }, some (st.acc.getD .detector))
 
 def tStep : TSt → TOp → TSt × Option GTag := tStepWith relabel
-def tStepOld : TSt → TOp → TSt × Option GTag := tStepWith relabelOld
 
 /-- the grid tags of the images a history returns -/
 def tRunWith (lab : PTag → GTag) : TSt → List TOp → List GTag
@@ -295,7 +243,7 @@ def PSt.deterministic (g : Geom) (st : PSt K) : Bool :=
 def pStep (g : Geom) (st : PSt K) : POp K → PSt K × Obs K
   | .integrate p dt w =>
     if p.length = g.ninput then
-      let a1 := accAdd st.acc (charge (binND g.s g.dims p) dt w)
+      let a1 := accAdd st.acc (charge (binNDs g.ss g.dims p) dt w)
       ({ st with acc := some (List.zipWith (fun a d => a + d * dt * w) a1 st.dark),
                  clean := st.clean && decide (st.dark = vzero g.npix) }, .done)
     else (st, .refused)
@@ -308,6 +256,34 @@ def pStep (g : Geom) (st : PSt K) : POp K → PSt K × Obs K
   | .setDark d => ({ st with dark := d }, .done)
   | .setSigma s => ({ st with sigma := s }, .done)
   | .setPhoton b => ({ st with photon := b }, .done)
+
+/-! #### read-out with the noise sources *on*: the random draws are inputs
+
+`NoisyDetector.read_out` consumes random numbers in a fixed order: `large_poisson(charge)` when
+`include_photon_noise` (one Poisson draw per pixel, expectation = the accumulated charge, i.e. binned power **and**
+dark current, before the flat field), then `* flat_field`, then `+ np.random.normal(0, read_noise, npix)`, then the
+reset.  The model takes the outcome of the draws as arguments: `δ` = (Poisson draw − its expectation) per pixel, `z` =
+the standard-normal deviates of the read noise.  The harness substitutes a recording stand-in for `np.random` that
+returns `lam + δ` / `loc + scale·z` and compares the arguments the real code hands to it, the call order and the image
+with this definition (driver op `readrng`). -/
+
+/-- elementwise product -/
+def vmul (a b : List K) : List K := List.zipWith (· * ·) a b
+
+/-- what the photon-noise stage is handed (`large_poisson(lam)`): the accumulated charge -/
+def PSt.lam (g : Geom) (st : PSt K) : List K := st.acc.getD (vzero g.npix)
+
+/-- the image of a read-out whose random draws came out as `δ` (photon noise) and `z` (read noise) -/
+def noisyImage (g : Geom) (st : PSt K) (δ z : List K) : List K :=
+  vadd (vmul (if st.photon then vadd (st.lam g) δ else st.lam g) st.flat) (vmul st.sigma z)
+
+/-- `read_out()` with the draws `δ`, `z`: the image, and the reset -/
+def pReadOutRng (g : Geom) (st : PSt K) (δ z : List K) : PSt K × List K :=
+  ({ st with acc := none, clean := true }, noisyImage g st δ z)
+
+/-- integrate all of `l`, in order, on a noisy detector -/
+def pIntegrateAll (g : Geom) (pst : PSt K) (l : List (List K × K × K)) : PSt K :=
+  l.foldl (fun st x => (pStep g st (.integrate x.1 x.2.1 x.2.2)).1) pst
 
 /-- the read-outs of a history with setters: for each one, whether everything was off, and what
 was observed -/
@@ -369,7 +345,10 @@ def pendingFrom (g : Geom) : List (List K × K × K) → List (Op K) → List (L
 
 /-- `Σ_j bin(p_j)·dt_j·w_j` as an image of `n` pixels (the empty sum is the zero image) -/
 def sumCharges (g : Geom) (l : List (List K × K × K)) : List K :=
-  l.foldl (fun a (x : List K × K × K) => vadd a (charge (binND g.s g.dims x.1) x.2.1 x.2.2)) (vzero g.npix)
+  l.foldl (fun a (x : List K × K × K) => vadd a (charge (binNDs g.ss g.dims x.1) x.2.1 x.2.2)) (vzero g.npix)
+
+/-- `Σ_j dt_j·w_j`: the weighted duration of an exposure (what the dark current is multiplied with) -/
+def darkTime (l : List (List K × K × K)) : K := (l.map fun x => x.2.1 * x.2.2).sum
 
 /-- split a history into the list of completed exposures (the integrations before each
 read-out) -/
